@@ -36,6 +36,7 @@ func init() {
 			{Name: "paths", N: tierN(120000, 6000000), Run: c14Paths},
 			{Name: "funcs", N: tierN(60000, 3000000), Run: c14Funcs},
 			{Name: "big", N: func(string) int { return len(c14BigList()) }, Run: c14Big},
+			{Name: "maporder", N: func(string) int { return len(c14MoTexts) * 8 }, Run: c14MapOrder},
 		},
 	})
 }
